@@ -249,7 +249,7 @@ func cmdCheck(args []string) {
 		}
 		defer os.RemoveAll(wd)
 	}
-	timeout := 40
+	timeout := 60
 	two := false
 	if *tier == "thorough" {
 		timeout = 120
@@ -513,6 +513,7 @@ func cmdCheck(args []string) {
 		"of_which_callee_contracts": dependencies,
 		"discharged_by_backend":    bySolver,
 		"solver_time_s":            round3(solverTime),
+		"slowest_obligations":      slowest(all, 8),
 		"load_s":                   round3(loadS),
 		"solve_wall_s":             round3(solveS),
 		"trivially_true_obligations_not_counted": V.trivial,
@@ -558,6 +559,18 @@ func cmdCheck(args []string) {
 		cleanup()
 		os.Exit(2)
 	}
+}
+
+// slowest: the obligations that took the most solver time (name, seconds, deciding back end): the ones to watch for
+// timeouts on a slower machine
+func slowest(all []*Obligation, n int) []map[string]interface{} {
+	cp := append([]*Obligation(nil), all...)
+	sort.SliceStable(cp, func(i, j int) bool { return cp[i].Time > cp[j].Time })
+	var out []map[string]interface{}
+	for i := 0; i < len(cp) && i < n; i++ {
+		out = append(out, map[string]interface{}{"obligation": cp[i].Name, "solver_s": round3(cp[i].Time), "by": cp[i].Solver})
+	}
+	return out
 }
 
 func isDep(deps []string, name string) bool {
